@@ -601,6 +601,9 @@ class FunctionAnalysis(BaseDomain):
             return     # their operands are reported on their own
         if any(a[0] in ('ARG', 'SELFATTR', 'TABLE', 'DATA', 'SELF') for a in v):
             self.emit('truthtest', node, {'arg': v})
+        if any(a[0] in ('ROW', 'HDR') for a in v):
+            # a row used for its truth value: an empty row () is falsy
+            self.emit('rowtruth', node, {'arg': v})
 
     def enter_for(self, s, st):
         env = dict(st)
